@@ -127,6 +127,12 @@ pub fn diag_token_spans(text: &str, diags: &[Value]) -> Vec<(String, i64, i64)> 
         .map(|d| {
             let s = lsptext::offset(text, d["range"]["start"]["line"].as_u64().unwrap_or(0) as u32, d["range"]["start"]["character"].as_u64().unwrap_or(0) as u32).unwrap_or(0);
             let e = lsptext::offset(text, d["range"]["end"]["line"].as_u64().unwrap_or(0) as u32, d["range"]["end"]["character"].as_u64().unwrap_or(0) as u32).unwrap_or(0);
+            if s == e {
+                // an empty range marks a position, not a construct (the "main is missing" of the
+                // whole program sits behind the first token of the text, whatever that is - a
+                // comment that moves in front of the first token moves it)
+                return (d["message"].as_str().unwrap_or("").to_string(), -2, -2);
+            }
             (d["message"].as_str().unwrap_or("").to_string(), idx(s, false), idx(e, true))
         })
         .collect();
@@ -197,6 +203,18 @@ pub fn owner_key(pr: &Printed, g: usize) -> String {
         if managing(&s.kind) && s.first <= g && g < s.end {
             if best.map(|(_, b)| (s.end - s.first) <= (b.end - b.first)).unwrap_or(true) {
                 best = Some((i, s));
+            }
+        }
+    }
+    if let Some((_, s)) = best {
+        // the gap in front of the closing brace of a procedure body that consists of variable
+        // declarations only (the repository's own formatting snapshot drops a comment there)
+        if s.kind == NodeKind::ProcDecl && g + 1 == s.end {
+            let inside = |k: &dyn Fn(&NodeKind) -> bool| pr.spans.iter().any(|x| k(&x.kind) && s.first <= x.first && x.end <= s.end && (x.first, x.end) != (s.first, s.end));
+            let has_vars = inside(&|k| *k == NodeKind::VarDecl);
+            let has_stmts = inside(&|k| matches!(k, NodeKind::StmtAssign | NodeKind::StmtCall | NodeKind::StmtEmpty | NodeKind::StmtIf | NodeKind::StmtWhile | NodeKind::StmtBlock));
+            if has_vars && !has_stmts {
+                return "ProcDecl:behind-the-last-variable-declaration-of-a-body-without-statements".into();
             }
         }
     }
